@@ -10,9 +10,9 @@ for f in sorted(glob.glob("/tmp/seedlog*.txt")):
     cur = None
     section = None
     for ln in open(f, errors="replace"):
-        m = re.match(r"^##### /tmp/seed(2?)-(C\d+)/out/change(\d) \((C\d+)\)", ln)
+        m = re.match(r"^##### /tmp/seed(2|3|)-(C\d+)/out/change(\d) \((C\d+)\)", ln)
         if m:
-            n = int(m.group(3)) + (2 if m.group(1) else 0)      # second-wave seeds are stored as change3 / change4
+            n = int(m.group(3)) + {"": 0, "2": 2, "3": 4}[m.group(1)]      # wave 2 -> change3/4, wave 3 -> change5
             cur = rows.setdefault("%s-change%d" % (m.group(2), n), {"build": "?", "tests": "?", "with": "?", "without": "?", "check": "?"})
             section = None
             continue
